@@ -266,7 +266,23 @@ func putProtoLabelIndices(ctx *datastore.VersionedCtx, dataIn []byte) (numAdded,
 	if err = pb.Unmarshal(dataIn, indices); err != nil {
 		return
 	}
+	// The maximum label is raised BEFORE any index is written: a process that dies between the two
+	// must not leave a label in the volume that no counter accounts for (it would be handed out by
+	// the next nextlabel/cleave/split after the restart).
+	d, ok := data.(*Data)
+	if !ok {
+		err = fmt.Errorf("unable to update max label during PUT label index due to bad data ptr for %q", data.DataName())
+		return
+	}
 	var maxLabel uint64
+	for _, protoIdx := range indices.Indices {
+		if protoIdx != nil && len(protoIdx.Blocks) != 0 && protoIdx.Label > maxLabel {
+			maxLabel = protoIdx.Label
+		}
+	}
+	if _, err = d.updateMaxLabel(ctx.VersionID(), maxLabel); err != nil {
+		return
+	}
 	for i, protoIdx := range indices.Indices {
 		if protoIdx == nil {
 			err = fmt.Errorf("indices included a nil index in position %d", i)
@@ -288,17 +304,7 @@ func putProtoLabelIndices(ctx *datastore.VersionedCtx, dataIn []byte) (numAdded,
 		if err = putLabelIndex(store, ctx, data, &idx); err != nil {
 			return
 		}
-		if idx.Label > maxLabel {
-			maxLabel = idx.Label
-		}
 	}
-	// handle updating the max label
-	d, ok := data.(*Data)
-	if !ok {
-		err = fmt.Errorf("unable to update max label during PUT label index due to bad data ptr for %q", data.DataName())
-		return
-	}
-	_, err = d.updateMaxLabel(ctx.VersionID(), maxLabel)
 	return
 }
 
@@ -340,17 +346,20 @@ func putLabelIndexAndMax(ctx *datastore.VersionedCtx, idx *labels.Index) error {
 	if err != nil {
 		return fmt.Errorf("error trying to LZ4 compress label %d indexing in data %q", idx.Label, ctx.Data().DataName())
 	}
-	if err := store.Put(ctx, tk, compressed); err != nil {
-		return fmt.Errorf("unable to store indices for label %d, data %s: %v", idx.Label, ctx.Data().DataName(), err)
-	}
+	// raise the maximum label first: see putProtoLabelIndices
 	d, ok := ctx.Data().(*Data)
 	if !ok {
 		return fmt.Errorf("Unable to update max label during PUT label index due to bad data ptr")
 	}
-	_, err = d.updateMaxLabel(ctx.VersionID(), idx.Label)
+	if _, err = d.updateMaxLabel(ctx.VersionID(), idx.Label); err != nil {
+		return err
+	}
+	if err := store.Put(ctx, tk, compressed); err != nil {
+		return fmt.Errorf("unable to store indices for label %d, data %s: %v", idx.Label, ctx.Data().DataName(), err)
+	}
 
 	// timedLog.Infof("stored label %d index with %d blocks", idx.Label, len(idx.Blocks))
-	return err
+	return nil
 }
 
 func deleteLabelIndex(ctx *datastore.VersionedCtx, label uint64) error {
